@@ -1747,6 +1747,9 @@ func (n *RegexNode) reduceRep() *RegexNode {
 		if u.M == 0 && child.M > 1 || maxLessThanTwiceMin(child.N, child.M) {
 			break
 		}
+		if verifGate("no-loop-multiplication") {
+			break
+		}
 
 		u = child
 		if u.M > 0 {
